@@ -379,6 +379,21 @@ func checkC13(c CaseC13, info *Info) *Failure {
 		if len(got) != wantCalls {
 			return failf("handler-call-count", "%s: map handler called %d times, want %d", desc(), len(got), wantCalls)
 		}
+		if c.API == "wrapper" && c.Stop > 0 && c.Stop < nd {
+			// x2j-wrapper.XmlMsgsFromReader is no core reader function: where it leaves the reader after an early stop is
+			// not pinned by the property (leniency 16); the messages it handed out are checked, the rest is not read on
+			info.Unspecified("reader position after x2j-wrapper.XmlMsgsFromReader stopped early (leniency 16)")
+			for i := range got {
+				if !reflect.DeepEqual(got[i], want[i]) {
+					return failf("document-mismatch", "%s: document %d: got %#v want %#v", desc(), i, got[i], want[i])
+				}
+			}
+			info.Class("kind:" + c.Kind)
+			info.Class("api:" + c.API)
+			info.ClassIf(true, "handler stopped early")
+			info.NonTrivial(nd >= 2 && (sr.sawEmpty || sr.sawSpan || sr.sawEOFData))
+			return nil
+		}
 		// after a 'false' return the next reader call yields exactly the following document
 		for {
 			m, r, err := readOne()
